@@ -2563,21 +2563,36 @@ def dc2(m, run):
     fc = m.func('operations.decompose_curve')
     bad = []
     cases = [(2, []), (2, [1]), (3, [1, 2, 3]), (3, [1, 2, 2, 3]), (3, [1, 1, 1]), (2, [1, 1, 2, 2])]
-    for p, interior in cases:
+    for p, interior, renorm in [(p_, i_, r_) for p_, i_ in cases for r_ in (False, True)]:
         made, calls = [], []
-        obj = rec_shape(('BSpline', 'Curve'), made, dict(degree=p, knotvector=kvec(p, interior), pdimension=1, rational=False, dimension=3), {})
+        kv0 = kvec(p, interior)
+        obj = rec_shape(('BSpline', 'Curve'), made, dict(degree=p, knotvector=kv0, _okv=ranks(kv0), pdimension=1, rational=False, dimension=3), {})
 
-        def split_curve(sk, node, crv, *a, _p=p, **k):
+        def split_curve(sk, node, crv, *a, _p=p, _renorm=renorm, **k):
             prm = k.get('param', a[0] if a else None)
-            calls.append((crv, prm))
             if not isinstance(prm, Ord):
                 raise Violation('DC2', 'split_curve is asked to split at %r, not at a knot of the curve' % (prm,), node)
-            kv = crv._a['knotvector']
+            kv, okv = crv._a['knotvector'], crv._a['_okv']
+            at = [i_ for i_, x in enumerate(kv) if x.rank == prm.rank]
+            if not at:
+                raise Violation('DC2', 'split_curve is asked to split the remaining piece at %s, which is not one of its knots %s%s' % (
+                    prm.rank, [str(r_) for r_ in ranks(kv)], ' (the pieces of a normalising shape have re-normalised knot vectors: the next knot has to be read from the piece)' if _renorm else ''), node)
+            calls.append((crv, Ord(okv[at[0]])))
             if not (kv[0].rank < prm.rank < kv[-1].rank):
                 raise Violation('DC2', 'split_curve is asked to split at the edge of the domain of the remaining piece (knot ranks %s, parameter rank %s): a repeated interior knot is consumed by one split'
                                 % (ranks(kv), prm.rank), node)
-            left = rec_shape(('BSpline', 'Curve'), made, dict(crv._a, knotvector=[x for x in kv if x.rank < prm.rank] + [Ord(prm.rank)] * (_p + 1), _piece=(kv[0].rank, prm.rank)), {}, 'split')
-            right = rec_shape(('BSpline', 'Curve'), made, dict(crv._a, knotvector=[Ord(prm.rank)] * (_p + 1) + [x for x in kv if x.rank > prm.rank], _piece=(prm.rank, kv[-1].rank)), {}, 'split')
+            lo_ = [i_ for i_, x in enumerate(kv) if x.rank < prm.rank]
+            hi_ = [i_ for i_, x in enumerate(kv) if x.rank > prm.rank]
+            o_ = okv[at[0]]
+
+            def piece(rk, ok):
+                if _renorm:
+                    a_, b_ = rk[0], rk[-1]
+                    rk = [Fraction(r_ - a_) / Fraction(b_ - a_) for r_ in rk]
+                return rec_shape(('BSpline', 'Curve'), made, dict(crv._a, knotvector=[Ord(r_) for r_ in rk], _okv=list(ok)), {}, 'split')
+            from fractions import Fraction
+            left = piece([kv[i_].rank for i_ in lo_] + [prm.rank] * (_p + 1), [okv[i_] for i_ in lo_] + [o_] * (_p + 1))
+            right = piece([prm.rank] * (_p + 1) + [kv[i_].rank for i_ in hi_], [o_] * (_p + 1) + [okv[i_] for i_ in hi_])
             return [left, right]
         ab = dict(STD_ABSTRACTED)
         ab[('operations', 'split_curve')] = Py(split_curve, 'split_curve')
@@ -2595,47 +2610,58 @@ def dc2(m, run):
             else:
                 bounds = [0] + distinct + [max(interior) + 1 if interior else 1]
                 for i, piece in enumerate(out):
-                    kv = piece._a['knotvector']
-                    if (kv[0].rank, kv[-1].rank) != (bounds[i], bounds[i + 1]) or any(kv[0].rank < x.rank < kv[-1].rank for x in kv):
-                        why = 'piece %d spans the knot ranks %s; expected the Bezier segment [%s, %s]' % (i, ranks(kv), bounds[i], bounds[i + 1])
+                    kv = piece._a['_okv']
+                    if (kv[0], kv[-1]) != (bounds[i], bounds[i + 1]) or any(kv[0] < x < kv[-1] for x in kv):
+                        why = 'piece %d spans the knot ranks %s; expected the Bezier segment [%s, %s]' % (i, kv, bounds[i], bounds[i + 1])
                         break
         except Violation as v:
             why = '%s %s' % (v.msg, v.where())
         except Unsupported as ex:
             raise AnalysisError('%s: interpreter met an unsupported construct: %s' % (fc.key, ex))
         if why:
-            bad.append(((p, interior), why))
-    run.ob('DC2.decomposition-on-recorder-shapes', '%s :: %d knot patterns (simple and repeated interior knots)' % (fc.key, len(cases)), not bad,
+            bad.append(((p, interior), why + (' [pieces re-normalise their knot vectors]' if renorm else '')))
+    run.ob('DC2.decomposition-on-recorder-shapes', '%s :: %d knot patterns (simple and repeated interior knots), pieces keeping / re-normalising their knots' % (fc.key, len(cases)), not bad,
            'one split per distinct interior knot, ascending, on the remaining piece; Bezier segments in parameter order' if not bad else
-           'degree %d, interior knot ranks %s: %s   [%d of %d patterns]' % (bad[0][0][0], bad[0][0][1], bad[0][1], len(bad), len(cases)), 'geomdl/operations.py:%d in %s' % (fc.node.lineno, fc.key))
+           'degree %d, interior knot ranks %s: %s   [%d of %d cases]' % (bad[0][0][0], bad[0][0][1], bad[0][1], len(bad), 2 * len(cases)), 'geomdl/operations.py:%d in %s' % (fc.node.lineno, fc.key))
     # ---- surface
     fs = m.func('operations.decompose_surface')
     bad = []
     scases = [((2, 1), ([1, 2], [1])), ((2, 2), ([1, 1], [])), ((1, 3), ([], [1, 2, 2])), ((2, 2), ([1], [1, 2, 3]))]
     n = 0
     for (p, q), (iu, iv) in scases:
-        for ddir in ('u', 'v', 'uv', None):
+        for ddir, renorm in [(d_, r_) for d_ in ('u', 'v', 'uv', None) for r_ in (False, True)]:
             n += 1
             made, calls = [], []
             kvs0 = [kvec(p, iu), kvec(q, iv)]
             obj = rec_shape(('BSpline', 'Surface'), made, dict(degree=[p, q], degree_u=p, degree_v=q, knotvector=kvs0, knotvector_u=kvs0[0], knotvector_v=kvs0[1],
-                                                               pdimension=2, rational=False, dimension=3), {})
+                                                               _okv=[ranks(kvs0[0]), ranks(kvs0[1])], pdimension=2, rational=False, dimension=3), {})
 
             def splitter(d):
-                def f(sk, node, srf, *a, _d=d, **k):
+                def f(sk, node, srf, *a, _d=d, _renorm=renorm, **k):
+                    from fractions import Fraction
                     prm = k.get('param', a[0] if a else None)
                     calls.append((_d, srf, prm))
-                    kvs = srf._a['knotvector']
-                    kv = kvs[_d]
+                    kvs, okvs = srf._a['knotvector'], srf._a['_okv']
+                    kv, okv = kvs[_d], okvs[_d]
                     deg = srf._a['degree'][_d]
-                    if not isinstance(prm, Ord) or not (kv[0].rank < prm.rank < kv[-1].rank):
-                        raise Violation('DC2', 'split_surface_%s is asked to split at %r; the %s-knots of that piece have the ranks %s' % ('uv'[_d], prm, 'uv'[_d], ranks(kv)), node)
-                    lkv = [x for x in kv if x.rank < prm.rank] + [Ord(prm.rank)] * (deg + 1)
-                    rkv = [Ord(prm.rank)] * (deg + 1) + [x for x in kv if x.rank > prm.rank]
-                    def mk(nk):
+                    at = [i_ for i_, x in enumerate(kv) if isinstance(prm, Ord) and x.rank == prm.rank]
+                    if not at or not (kv[0].rank < prm.rank < kv[-1].rank):
+                        raise Violation('DC2', 'split_surface_%s is asked to split at %r; the %s-knots of that piece have the ranks %s%s' % (
+                            'uv'[_d], prm, 'uv'[_d], [str(r_) for r_ in ranks(kv)], ' (the pieces of a normalising shape have re-normalised knot vectors: the next knot has to be read from the piece)' if _renorm else ''), node)
+                    lo_ = [i_ for i_, x in enumerate(kv) if x.rank < prm.rank]
+                    hi_ = [i_ for i_, x in enumerate(kv) if x.rank > prm.rank]
+                    o_ = okv[at[0]]
+
+                    def mk(rk, ok):
+                        if _renorm:
+                            a_, b_ = rk[0], rk[-1]
+                            rk = [Fraction(r_ - a_) / Fraction(b_ - a_) for r_ in rk]
+                        nk = [Ord(r_) for r_ in rk]
                         nkv = [nk if i == _d else list(kvs[i]) for i in range(2)]
-                        return rec_shape(('BSpline', 'Surface'), made, dict(srf._a, knotvector=nkv, knotvector_u=nkv[0], knotvector_v=nkv[1]), {}, 'split')
-                    return [mk(lkv), mk(rkv)]
+                        nok = [list(ok) if i == _d else list(okvs[i]) for i in range(2)]
+                        return rec_shape(('BSpline', 'Surface'), made, dict(srf._a, knotvector=nkv, knotvector_u=nkv[0], knotvector_v=nkv[1], _okv=nok), {}, 'split')
+                    return [mk([kv[i_].rank for i_ in lo_] + [prm.rank] * (deg + 1), [okv[i_] for i_ in lo_] + [o_] * (deg + 1)),
+                            mk([prm.rank] * (deg + 1) + [kv[i_].rank for i_ in hi_], [o_] * (deg + 1) + [okv[i_] for i_ in hi_])]
                 return Py(f, 'split_surface_' + 'uv'[d])
             ab = dict(STD_ABSTRACTED)
             ab[('operations', 'split_surface_u')] = splitter(0)
@@ -2660,10 +2686,10 @@ def dc2(m, run):
                     k_ = 0
                     for a in range(len(bu) - 1):
                         for b in range(len(bv) - 1):
-                            ku, kv_ = out[k_]._a['knotvector']
-                            if (ku[0].rank, ku[-1].rank, kv_[0].rank, kv_[-1].rank) != (bu[a], bu[a + 1], bv[b], bv[b + 1]):
+                            ku, kv_ = out[k_]._a['_okv']
+                            if (ku[0], ku[-1], kv_[0], kv_[-1]) != (bu[a], bu[a + 1], bv[b], bv[b + 1]):
                                 why = "decompose_dir=%r: patch %d spans u ranks [%s, %s] x v ranks [%s, %s]; expected [%s, %s] x [%s, %s] (u-major order)" % (
-                                    ddir, k_, ku[0].rank, ku[-1].rank, kv_[0].rank, kv_[-1].rank, bu[a], bu[a + 1], bv[b], bv[b + 1])
+                                    ddir, k_, ku[0], ku[-1], kv_[0], kv_[-1], bu[a], bu[a + 1], bv[b], bv[b + 1])
                                 break
                             k_ += 1
                         if why:
@@ -2673,7 +2699,7 @@ def dc2(m, run):
             except Unsupported as ex:
                 raise AnalysisError('%s: interpreter met an unsupported construct: %s' % (fs.key, ex))
             if why:
-                bad.append((((p, q), (iu, iv), ddir), why))
+                bad.append((((p, q), (iu, iv), ddir), why + (' [pieces re-normalise their knot vectors]' if renorm else '')))
     run.ob('DC2.decomposition-on-recorder-shapes', '%s :: %d (knot pattern, decompose_dir) cases' % (fs.key, n), not bad,
            "only the requested directions are split, once per distinct interior knot; patches in u-major parameter order" if not bad else
            'degrees %s, interior knot ranks %s: %s   [%d of %d cases]' % (bad[0][0][0], bad[0][0][1], bad[0][1], len(bad), n), 'geomdl/operations.py:%d in %s' % (fs.node.lineno, fs.key))
@@ -4146,7 +4172,9 @@ def sp3s(m, run):
                 Q.append([P[i][c] * al + P[i - 1][c] * (1 - al) for c in range(len(P[0]))])
         return Q, sorted(kv + [u])
     degs = (2, 1)
-    kvs = ([F(0)] * 3 + [F(1, 3), F(2, 3), F(2, 3)] + [F(2)] * 3, [F(0), F(0), F(1, 4), F(1, 2), F(1), F(1)])
+    # (the two domains differ and each contains an end of the other as an interior knot: u over [1, 3] with the double knot 2 = end of v, v over
+    # [0, 2] with the knot 1 = start of u - a guard that tests the other direction's domain refuses these legitimate splits)
+    kvs = ([F(1)] * 3 + [F(4, 3), F(2), F(2)] + [F(3)] * 3, [F(0), F(0), F(1, 2), F(1), F(2), F(2)])
     su, sv = len(kvs[0]) - degs[0] - 1, len(kvs[1]) - degs[1] - 1
     for d, fname in ((0, 'split_surface_u'), (1, 'split_surface_v')):
         fi = m.func('operations.' + fname)
@@ -4227,6 +4255,23 @@ def sp3s(m, run):
                     raise AnalysisError('%s: interpreter met an unsupported construct: %s' % (fi.key, ex))
                 if why:
                     bad.append(((str(u), rational), why))
+        # the two ends of the domain of the split direction are rejected with an exception, the input left as it was
+        for end in (kv[p], kv[-(p + 1)]):
+            n += 1
+            made = []
+            G = [[[Poly.atom('P%d_%d_%d' % (i, j, c)) for c in range(2)] for j in range(sv)] for i in range(su)]
+            obj = rec_surface(made, degs, kvs, [[[Sym(x) for x in pt] for pt in row] for row in G], False)
+            obj._a['domain'] = [(kvs[0][degs[0]], kvs[0][-(degs[0] + 1)]), (kvs[1][degs[1]], kvs[1][-(degs[1] + 1)])]
+            sk = SK(m, {('linalg', 'point_distance'): STD_ABSTRACTED[('linalg', 'point_distance')]})
+            sk.exact = True
+            try:
+                sk.call(fi, [obj, end], {})
+                bad.append(((str(end), False), 'a split at the %s of the %s domain is carried out; it must be rejected (one of the pieces would be empty)' % ('start' if end == kv[p] else 'end', 'uv'[d])))
+            except Violation as v:
+                if v.rule != 'RAISE':
+                    bad.append(((str(end), False), '%s %s' % (v.msg, v.where())))
+            except Unsupported as ex:
+                raise AnalysisError('%s: interpreter met an unsupported construct: %s' % (fi.key, ex))
         run.ob('SP3.split-exact', '%s :: %d (parameter, rational) cases on a %d x %d net of degrees %s' % (fi.key, n, su, sv, degs), not bad,
                'pieces are the two halves, along the split direction, of the fully refined net' if not bad else
                'parameter %s, rational %s: %s   [%d of %d cases]' % (bad[0][0] + (bad[0][1], len(bad), n)), 'geomdl/operations.py:%d in %s' % (fi.node.lineno, fi.key))
